@@ -48,6 +48,9 @@ RAW_KINDS = {
     # texts that Python's float() accepts but that are not finite numbers
     "inf_word": "inf", "nan_word": "nan", "overflowing_exponent_word": "1e999", "quoted_neg_infinity": '"-Infinity"',
     "nonfinite_list": "[inf, -1e999, nan]",
+    # characters that are "digits" to str.isdigit() / isnumeric() but that int() or float() may not take
+    "superscript_digits": '"10\u00b2"', "circled_digit": '"\u2460"', "subscript_digit_list": '[1, "\u2082"]', "arabic_indic_digit": '"\u0663"',
+    "fraction_char": '"\u00bd"', "fullwidth_digits": '"\uff11\uff12"',
 }
 
 
